@@ -138,6 +138,24 @@ def run_matching_cost(case):
     out = {"left": cv_to_lists(m.left_cv), "right": None}
     if case.get("right"):
         out["right"] = cv_to_lists(m.right_cv)
+    # the same allocated grid handed to compute_cost_volume again (what a caller looping over several right images
+    # does): the volume and the grid's attributes must come out the same
+    if case.get("again"):
+        try:
+            attrs0 = {k: (np.array(v).tolist() if isinstance(v, np.ndarray) else v) for k, v in m.left_cv.attrs.items()}
+            m2 = PandoraMachine()
+            m2.run_prepare(copy.deepcopy(cfg), left, right)
+            m2.matching_cost_prepare(cfg, "matching_cost")
+            grid = m2.left_cv
+            mc = m2.matching_cost_
+            for _ in range(2):
+                cv = mc.compute_cost_volume(m2.left_img, m2.right_img, grid)
+            mc.cv_masked(m2.left_img, m2.right_img, cv, m2.disp_min, m2.disp_max)
+            out["left_again"] = np.asarray(cv["cost_volume"].data, dtype=np.float64)
+            attrs1 = {k: (np.array(v).tolist() if isinstance(v, np.ndarray) else v) for k, v in cv.attrs.items()}
+            out["attrs_changed"] = sorted(k for k in attrs0 if str(attrs0[k]) != str(attrs1.get(k)))
+        except Exception as exc:  # pylint: disable=broad-except
+            out["again_error"] = f"{type(exc).__name__}: {str(exc)[:200]}"
     return out
 
 
